@@ -564,6 +564,13 @@ def _rnd(ex, ins):
     ex.setv(ins, V(c, 'F32', ins['t']))
 
 
+@model('math/rand.Float64', doc='some float64 in [0,1)')
+def _rnd64(ex, ins):
+    c = ex.vc.declare(ex.nm('rnd64'), 'F64')
+    ex.vc.assume('(and (fp.leq ((_ to_fp 11 53) RNE 0.0) %s) (fp.lt %s ((_ to_fp 11 53) RNE 1.0)))' % (c, c), ex.reach)
+    ex.setv(ins, V(c, 'F64', ins['t']))
+
+
 @model('github.com/pip-services3-gox/pip-services3-commons-gox/errors.NewUnsupportedError', doc='returns a fresh non-nil *ApplicationError')
 def _unsupported(ex, ins):
     ref = new_ref(ex, ins['n'])
